@@ -125,8 +125,19 @@ class Stats:
         self.engine_cases: collections.Counter = collections.Counter()
         self.exhaustive: dict[str, bool] = {}
         self.messages: list[str] = []
+        self.slow: list = []          # (seconds, engine, case) of the slowest cases: diagnostics only
+        self._t_last = time.time()
 
     def record(self, engine: str, case: Any, out: Outcome) -> list[str]:
+        now = time.time()
+        took, self._t_last = now - self._t_last, now
+        if took > 2.0 and (len(self.slow) < 3 or took > self.slow[-1][0]):
+            self.slow.append((round(took, 1), engine, _jsonable(case)))
+            self.slow.sort(key=lambda x: -x[0])
+            del self.slow[3:]
+        return self._record(engine, case, out)
+
+    def _record(self, engine: str, case: Any, out: Outcome) -> list[str]:
         """Returns the list of UNKNOWN violation signatures of this case."""
         self.cases += 1
         self.evaluations += max(1, out.weight)
@@ -170,7 +181,7 @@ class Stats:
             "known_hits": dict(self.known_hits),
             "notes": {k: dict(v) for k, v in self.notes.items()},
             "engine_cases": dict(self.engine_cases),
-            "exhaustive": self.exhaustive, "messages": self.messages,
+            "exhaustive": self.exhaustive, "messages": self.messages, "slow": self.slow,
         }
 
 
@@ -399,6 +410,7 @@ def parent(modname: str, tier: str, seed: int, only: str | None, nshards_opt: in
             merged.known_hits.update(js["known_hits"])
             merged.engine_cases.update(js["engine_cases"])
             merged.messages.extend(js["messages"])
+            merged.slow.extend(js.get("slow", []))
             for k, v in js["exhaustive"].items():
                 merged.exhaustive[k] = merged.exhaustive.get(k, True) and v
             for k, v in js["notes"].items():
@@ -461,6 +473,7 @@ def parent(modname: str, tier: str, seed: int, only: str | None, nshards_opt: in
             "notes": {k: dict(sorted(v.items(), key=lambda kv: -kv[1])[:60]) for k, v in merged.notes.items()},
             "shards": nshards,
             "messages": merged.messages[:20],
+            "slowest_cases": sorted(merged.slow, key=lambda x: -x[0])[:3],
             "unknown_violation_signatures": sorted(violations)[:MAX_SIGS],
         },
         "assumptions": list(mod.ASSUMPTIONS),
